@@ -110,6 +110,7 @@ def run(ctx) -> None:
   ctx.rule('R5', 'handlers around service-handle calls treat KeyError-like classes and RpcError alike', 1)
   ctx.rule('R6', 'error details passed to handle_exception are bounded scalars, never whole messages', 10)
   ctx.rule('R7', 'every handle_exception call in an RPC method passes that RPC\'s context', 10)
+  ctx.import_rules('C12', {'R8'}, 'R12', 'a policy sees the complete trial list wherever it runs (ListTrials is not paginated / truncated)')
   ctx.import_rules('C12', {'R4'}, 'R11', 'the policy supporter lists trials the same way wherever Pythia runs: only the TrialFilter selects')
   ctx.rule('R10', 'handlers around algorithm (Pythia) calls do not discriminate on the exception class: a Python class does not '
            'survive the gRPC hop to a remote Pythia', 1)
